@@ -32,7 +32,13 @@ RULE = ("direct oracle: every operation (C01 valid encode/decode, C04 malformed 
         "value of a generated table with one injected ambiguity), as variants of the generated descriptions (the table used by the value is made "
         "ambiguous) and as service-level scenarios (encode_request / encode_positive_response / Request+Response.encode+decode, PHYS-CONST in the "
         "cached prefix tree of a layer); direct calls of convert_physical_to_internal / convert_internal_to_physical on one object per generated "
-        "compu method (all categories). Violations: strict result ok and "
+        "compu method (all categories). Round 6 family key-protocol: LENGTH-KEY / TABLE-KEY parameters whose two-step protocol fails (a key nobody "
+        "defines -- no user at all, two keys of which one is used, user in front of its key --, conflicting / invalid / wrongly typed explicit values, "
+        "lengths the key cannot represent, a second item or user meeting the key of the first) enumerated over layouts x containers (request, "
+        "responses, structure, nested structure, field items, MUX case) x key DOPs x user types x values, every value encoded and the PDUs of both "
+        "modes + all short byte strings decoded, compared with drv_codec under both flags (the model carries the lenient continuation of every such "
+        "problem); scenario undefined-length-key: the same through DiagService.encode_request / encode_positive_response / Request.encode / "
+        "Response.encode with the user in another structure than its key. Violations: strict result ok and "
         "lenient result different; a result that depends on anything but the flag at the time of the call; re-enabling strict mode does not "
         "restore the error. Correspondence: the same encode/decode/emplace/extract lines with (strict t) and (strict f) against drv_codec. "
         "Table obligation: the regenerated list of catch sites and flag accesses equals the accounted list (Python comparison + Lean `decide`). "
@@ -370,7 +376,55 @@ def scenario_xml(name):
         return _doc({"BASE-VARIANT": [_layer("L", "BASE-VARIANT", [_svc("S", "RQ", pos=["PR"])],
                                              [_msg("REQUEST", "RQ", [_const("sid", 0x22), _physconst("c", "duptext", "on"), _value("x", "u8")])],
                                              pos=[_msg("POS-RESPONSE", "PR", [_const("sid", 0x62), _value("a", "u8")])])]})
+    if name == "undefined-length-key":  # round 6: LENGTH-KEYs which nobody defines, reached through the public encode entry points. The key dictionaries
+        # are global per PDU and the reference is an ODXLINK, so the user may live in another structure than the key: S -- the user is the item of an
+        # END-OF-PDU-FIELD behind the key (no item: nobody defines the key; two items: the second meets the length of the first); O -- a key nobody
+        # uses, in the request and in the response; N -- the key is in a nested structure and its user *behind* that structure (the structure writes
+        # its keys when it is done: "has not been defined before it is required"); M -- the user is in one case of a MUX
+        def key(id_, name, dop="u8"):
+            return f'<PARAM xsi:type="LENGTH-KEY" ID="{id_}"><SHORT-NAME>{name}</SHORT-NAME><DOP-REF ID-REF="{dop}"/></PARAM>'
+
+        def plen(id_, keyid):
+            return (f'<DATA-OBJECT-PROP ID="{id_}"><SHORT-NAME>{id_}</SHORT-NAME>{IDENT}<DIAG-CODED-TYPE BASE-DATA-TYPE="A_BYTEFIELD" '
+                    f'xsi:type="PARAM-LENGTH-INFO-TYPE"><LENGTH-KEY-REF ID-REF="{keyid}"/></DIAG-CODED-TYPE><PHYSICAL-TYPE BASE-DATA-TYPE="A_BYTEFIELD"/></DATA-OBJECT-PROP>')
+
+        def struct(id_, params):
+            return f'<STRUCTURE ID="{id_}"><SHORT-NAME>{id_}</SHORT-NAME><PARAMS>{"".join(params)}</PARAMS></STRUCTURE>'
+        global DOPS
+        keep = DOPS
+        DOPS = keep + plen("plS", "RQ.k") + plen("plN", "stN.k") + plen("plM", "RQM.k")
+        try:
+            ddds = ('<STRUCTURES>' + struct("stS", [_value("x", "plS")]) + struct("stN", [key("stN.k", "k"), _value("a", "u8")])
+                    + struct("stM1", [_value("x", "plM")]) + struct("stM2", [_value("a", "u8")]) + '</STRUCTURES>'
+                    '<END-OF-PDU-FIELDS><END-OF-PDU-FIELD ID="eopS"><SHORT-NAME>eopS</SHORT-NAME><BASIC-STRUCTURE-REF ID-REF="stS"/></END-OF-PDU-FIELD></END-OF-PDU-FIELDS>'
+                    '<MUXS><MUX ID="muxM"><SHORT-NAME>muxM</SHORT-NAME><BYTE-POSITION>1</BYTE-POSITION><SWITCH-KEY><BYTE-POSITION>0</BYTE-POSITION>'
+                    '<DATA-OBJECT-PROP-REF ID-REF="u8"/></SWITCH-KEY><CASES>'
+                    '<CASE><SHORT-NAME>c1</SHORT-NAME><STRUCTURE-REF ID-REF="stM1"/><LOWER-LIMIT>1</LOWER-LIMIT><UPPER-LIMIT>1</UPPER-LIMIT></CASE>'
+                    '<CASE><SHORT-NAME>c2</SHORT-NAME><STRUCTURE-REF ID-REF="stM2"/><LOWER-LIMIT>2</LOWER-LIMIT><UPPER-LIMIT>2</UPPER-LIMIT></CASE></CASES></MUX></MUXS>')
+            return _doc({"BASE-VARIANT": [_layer(
+                "L", "BASE-VARIANT", [_svc("S", "RQ", pos=["PR"]), _svc("O", "RQO", pos=["PRO"]), _svc("N", "RQN"), _svc("M", "RQM")],
+                [_msg("REQUEST", "RQ", [_const("sid", 0x22), key("RQ.k", "k"), _value("f", "eopS")]),
+                 _msg("REQUEST", "RQO", [_const("sid", 0x23), key("RQO.k", "k"), _value("y", "u8")]),
+                 _msg("REQUEST", "RQN", [_const("sid", 0x24), _value("s", "stN"), _value("x", "plN")]),
+                 _msg("REQUEST", "RQM", [_const("sid", 0x25), key("RQM.k", "k"), _value("m", "muxM")])],
+                pos=[_msg("POS-RESPONSE", "PR", [_const("sid", 0x62), _value("a", "u8")]),
+                     _msg("POS-RESPONSE", "PRO", [_const("sid", 0x63), _value("y", "u8"), key("PRO.k", "k")])], extra_ddds=ddds)]})
+        finally:
+            DOPS = keep
     raise KeyError(name)
+
+
+def _kwargs(a):
+    """keyword arguments of a scenario entry: {"$b": hex} stands for bytes, {"$t": [...]} for a tuple (JSON has neither)"""
+    if isinstance(a, dict):
+        if set(a) == {"$b"}:
+            return bytes.fromhex(a["$b"])
+        if set(a) == {"$t"}:
+            return tuple(_kwargs(x) for x in a["$t"])
+        return {k: _kwargs(v) for k, v in a.items()}
+    if isinstance(a, list):
+        return [_kwargs(x) for x in a]
+    return a
 
 
 SCENARIOS = {
@@ -391,6 +445,21 @@ SCENARIOS = {
                       ("svc.decode_message:S", ["620100"]), ("response.decode:S:PR", ["620100"]), ("response.decode:S:PR", ["620002"]), ("request.decode:S", ["220205"]),
                       ("layer.decode_response", ["620100", "220105"])],
     "cached-prefix-tree": [("layer.decode", ["2305"]), ("layer.decode", ["220105"]), ("layer.decode", ["6207"]), ("layer.decode_response", ["6207", "2305"])],
+    # round 6: (the same assignments through DiagService.encode_request and Request.encode / Response.encode, and what the PDUs decode to)
+    "undefined-length-key": [(e, [kw]) for kw in ({"f": []}, {"f": [{"x": {"$b": "0102"}}]}, {"f": [{"x": {"$b": "0102"}}, {"x": {"$b": "03"}}]}, {"k": 16, "f": []},
+                                                   {"k": 8, "f": [{"x": {"$b": "0102"}}]}, {"k": None, "f": []})
+                             for e in ("svc.encode_request:S", "request.encode:S")]
+                            + [(e, [kw]) for kw in ({"y": 1}, {"y": 1, "k": 16}, {"y": 1, "k": None}, {"y": 1, "k": "16"}, {}, {"k": 8}, {"y": 1, "zz": 2}, {"y": 1, "k": 8, "K": 8})
+                               for e in ("svc.encode_request:O", "request.encode:O")]
+                            + [(e, ["2301", kw]) for kw in ({"y": 1}, {"y": 1, "k": 8}) for e in ("svc.encode_positive_response:O", "response.encode:O:PRO")]
+                            + [(e, [kw]) for kw in ({"s": {"a": 1}, "x": {"$b": "0102"}}, {"s": {"a": 1, "k": 16}, "x": {"$b": "0102"}}, {"s": {"a": 1, "k": 8}, "x": {"$b": "0102"}},
+                                                    {"s": {"a": 1}, "x": {"$b": ""}})
+                               for e in ("svc.encode_request:N", "request.encode:N")]
+                            + [(e, [kw]) for kw in ({"m": {"$t": ["c1", {"x": {"$b": "0102"}}]}}, {"m": {"$t": ["c2", {"a": 5}]}}, {"k": 8, "m": {"$t": ["c2", {"a": 5}]}},
+                                                    {"k": 8, "m": {"$t": ["c1", {"x": {"$b": "0102"}}]}})
+                               for e in ("svc.encode_request:M", "request.encode:M")]
+                            + [("layer.decode", [h]) for h in ("2200", "22100102", "220801", "2310", "230001", "24000101", "2410010102", "25100101 02".replace(" ", ""), "25000205", "250802")]
+                            + [("request.decode:S", ["22100102"]), ("request.decode:N", ["2410010102"]), ("response.decode:O:PRO", ["630100"]), ("svc.decode_message:M", ["25000205"])],
     "physconst-dup": [("svc.encode_request:S", [{"x": 5}]), ("request.encode:S", [{"x": 5}]), ("request.decode:S", ["220105"]), ("request.decode:S", ["220205"]),
                       ("svc.decode_message:S", ["220105"]), ("svc.decode_message:S", ["6207"]), ("response.encode:S:PR", ["220105", {"a": 7}])],
 }
@@ -414,7 +483,7 @@ def load_scenario(name, load_flag, hist=""):
 def run_scenario(case, load_flag, call_flag, hist=""):
     db = load_scenario(case["name"], load_flag, hist)
     dl = db.diag_layers[0]
-    entry, args = case["entry"], [bytes.fromhex(a) if isinstance(a, str) else a for a in case["args"]]
+    entry, args = case["entry"], [bytes.fromhex(a) if isinstance(a, str) else _kwargs(a) for a in case["args"]]
     set_flag(call_flag)
     signal.alarm(_alarm_s())
     with warnings.catch_warnings():
@@ -636,6 +705,141 @@ def ambiguity_variants(rng, c, v, limit=2):
     return out
 
 
+def enum_key_protocol(big):
+    """round 6: the *key protocol* of the composite encoder / decoder gone wrong.  A LENGTH-KEY / TABLE-KEY is written in two steps (a placeholder
+    where the parameter stands, the value after all parameters of the composite have been encoded) and is defined by whoever comes first: an
+    explicitly specified value or the parameter that uses the key.  Every way in which this protocol fails is a problem that strict mode reports
+    through odxraise and non-strict mode has to downgrade ('... has not been defined before it is required', 'conflicting values', 'invalid
+    explicitly specified value', 'is of type ... instead of int', 'cannot represent a length of ... bits', 'unspecified mandatory length key').
+    Enumerated: layouts of one parameter list (a key nobody uses -- in the middle, last, at an explicit byte position behind a gap, at a bit
+    position; two keys of which one is used; the user in front of its key; the ordinary key/user pair; two users of one key) x the container of
+    the list (request, positive / negative response, structure; a nested structure, the items of a STATIC-FIELD / END-OF-PDU-FIELD (the key
+    dictionaries are global per PDU: the second item meets the keys of the first), a MUX case) x DOP of the key x type of the user x values (key
+    absent, None, consistent, inconsistent, too large, negative, not a multiple of 8, bool / float / str; user value absent, empty, two bytes).
+    Yields (tag, composite, [value], [pdu])."""
+    from odxgen import desc as D
+    from odxgen import gen as G
+    u8, val = D.u8, D.value
+
+    def lin(n0, n1, phys):
+        return D.SimpleDop(D.Std("A_UINT32", 8), phys, D.Linear(n0, n1, 1))
+
+    kds = [("u8", u8()), ("i8", D.SimpleDop(D.Std("A_INT32", 8), "A_INT32")), ("lin0_8", lin(0, 8, "A_UINT32")), ("lin-8_8u", lin(-8, 8, "A_UINT32")),
+           ("lin8_8i", lin(8, 8, "A_INT32")), ("u4", u8(4)), ("u16", u8(16))]
+    if big:
+        kds += [("i16sm", D.SimpleDop(D.Std("A_INT32", 16, "SM", False), "A_INT32")), ("u12", u8(12))]
+        kds += [(f"lin{a}_{b}{ph[2]}", lin(a, b, ph)) for a, b in G.KEY_LINEAR for ph in ("A_INT32", "A_UINT32")]
+    bts = ["A_BYTEFIELD", "A_UINT32"] + (["A_UTF8STRING", "A_UNICODE2STRING", "A_INT32", "A_ASCIISTRING"] if big else [])
+
+    def user(name, bt, key="k"):
+        return val(name, D.SimpleDop(D.ParamLen(bt, key), bt))
+
+    def layouts(kd, bt):
+        k = lambda **kw: D.length_key("k", kd, **kw)
+        return [("orphan", [k(), val("y", u8())]), ("orphan-last", [val("y", u8()), k()]), ("orphan-gap", [val("y", u8()), k(bytepos=3)]),
+                ("orphan-bitpos", [k(bitpos=3), val("y", u8())]), ("two-keys", [k(), D.length_key("k2", kd), user("x", bt), val("y", u8())]),
+                ("two-keys-rev", [D.length_key("k2", kd), k(), user("x", bt)]), ("user-first", [user("x", bt), k()]),
+                ("pair", [k(), user("x", bt), val("y", u8())]), ("two-users", [k(), user("x", bt), user("x2", bt)])]
+
+    def xvals(bt, full):
+        two = {"A_BYTEFIELD": b"\x01\x02", "A_UINT32": 0x1234, "A_INT32": -0x1234, "A_UNICODE2STRING": "ä"}.get(bt, "ab")
+        one = {"A_BYTEFIELD": b"\x07", "A_UINT32": 7, "A_INT32": -7, "A_UNICODE2STRING": ""}.get(bt, "a")
+        empty = {"A_BYTEFIELD": b"", "A_UINT32": 0, "A_INT32": 0}.get(bt, "")
+        return [two, "absent", empty, one] if full else [two, "absent"]
+
+    KEY_FULL = ["absent", None, 16, 8, 0, 24, 255, 256, -8, 7, True, 8.0, "8"]
+    KEY_SMALL = ["absent", 16, 8]
+
+    def values(ps, bt, full):
+        names = [p.name for p in ps]
+        out = []
+        for kv in (KEY_FULL if full else KEY_SMALL):
+            for k2v in (["absent", 8] if "k2" in names else ["absent"]):
+                for xv in (xvals(bt, full) if "x" in names else ["absent"]):
+                    v = {"y": 1} if "y" in names else {}
+                    for n, x in (("k", kv), ("k2", k2v), ("x", xv)):
+                        if not (isinstance(x, str) and x == "absent"):
+                            v[n] = x
+                    if "x2" in names:
+                        out.append({**v, "x2": xvals(bt, False)[0]})
+                        if full:
+                            out.append({**v, "x2": xvals(bt, True)[3]})
+                    else:
+                        out.append(v)
+        return out
+
+    def wrap(cont, ps, vs):
+        """the parameter list `ps` with its assignments `vs` inside the container"""
+        if cont in ("request", "pos-response", "neg-response", "global-neg-response"):
+            return D.Composite("K", cont, [D.sid()] + ps), [{**v} for v in vs]
+        if cont == "structure":
+            return D.Composite("K", "structure", ps), vs
+        if cont == "nested":
+            return D.Composite("K", "request", [D.sid(), val("s", D.Struct(ps)), val("z", u8())]), [{"s": v, "z": 2} for v in vs]
+        if cont == "eop-field":
+            # 0, 1 and 2 items: the second item meets the keys which the first one left in the (per PDU) dictionaries
+            return (D.Composite("K", "request", [D.sid(), val("f", D.EopField(D.Struct(ps)))]),
+                    [{"f": []}] + [{"f": [v]} for v in vs] + [{"f": [v, w]} for v, w in zip(vs, vs[1:] + vs[:1])])
+        if cont == "static-field":
+            return (D.Composite("K", "request", [D.sid(), val("f", D.StaticField(2, 8, D.Struct(ps))), val("z", u8())]),
+                    [{"f": [v, w], "z": 2} for v, w in zip(vs, vs[1:] + vs[:1])])
+        if cont == "mux":
+            m = D.Mux(1, 0, None, u8(), [D.MuxCase("c1", 1, 1, D.Struct(ps)), D.MuxCase("c2", 2, 2, D.Struct([val("a", u8())]))])
+            return D.Composite("K", "request", [D.sid(), val("m", m)]), [{"m": ("c1", v)} for v in vs] + [{"m": ("c2", {"a": 5})}]
+        raise KeyError(cont)
+
+    conts = ["request", "pos-response", "structure", "nested", "eop-field", "static-field", "mux"] + (["neg-response", "global-neg-response"] if big else [])
+    alphabet = (0x00, 0x08, 0x10, 0xFF)
+    import itertools
+    for ci, cont in enumerate(conts):
+        for ki, (ktag, kd) in enumerate(kds):
+            for bi, bt in enumerate(bts):
+                # quick: the full product of the values for the first container / key DOP / user type, and each further container, key DOP and
+                # user type against the first of the other two with the reduced values; thorough: the longer lists in the same way (the full
+                # values for every container) + everything with everything over the lists of the quick tier (reduced values)
+                level = sum(1 for i in (ci, ki, bi) if i)
+                if level > 1 and not (big and ci < 7 and ki < 7 and bi < 2):
+                    continue
+                full = (ci, ki, bi) == (0, 0, 0) or (big and ki == 0 and bi == 0)
+                for ltag, ps in layouts(kd, bt):
+                    if bi and not any(p.name == "x" for p in ps):
+                        continue
+                    try:
+                        comp, vs = wrap(cont, ps, values(ps, bt, full or (ci == 0 and bi == 0 and ltag.startswith("orphan"))))
+                    except Exception:  # noqa
+                        continue
+                    maxlen = 3 if (ci, ki, bi) == (0, 0, 0) else 2
+                    head = [0x22] if cont != "structure" else []
+                    pdus = [bytes(head) + bytes(b) for n in range(maxlen + 1) for b in itertools.product(alphabet, repeat=n)]
+                    yield f"{ltag}/{cont}/{ktag}/{bt}", comp, vs, pdus
+    # TABLE-KEY / TABLE-STRUCT: the same protocol (no model counterpart: direct oracle only)
+    rows = [D.TableRow("r1", 1, struct=D.Struct([val("a", u8())])), D.TableRow("r2", 2, dop=u8(16)), D.TableRow("r3", 3)]
+    for ttag, mk in (("tk-orphan", lambda t: [D.table_key("tk", t), val("y", u8())]), ("tk-orphan-last", lambda t: [val("y", u8()), D.table_key("tk", t)]),
+                     ("tk-pair", lambda t: [D.table_key("tk", t), val("y", u8()), D.table_struct("ts", "tk")]),
+                     ("tk-static-row", lambda t: [D.table_key("tk", t, "r2"), D.table_struct("ts", "tk"), val("y", u8())]),
+                     ("tk-two-keys", lambda t: [D.table_key("tk", t), D.table_key("tk2", t), D.table_struct("ts", "tk")]),
+                     ("tk-user-first", lambda t: [D.table_struct("ts", "tk"), D.table_key("tk", t)])):
+        for cont in (("request", "pos-response", "structure", "nested", "eop-field", "static-field", "mux") if big else ("request", "structure", "eop-field")):
+            ps = mk(D.Table(u8(), rows))
+            names = [p.name for p in ps]
+            vs = []
+            for kv in ("absent", None, "r1", "r2", "r3", "nope", 1, True):
+                for tsv in ((("absent", ("r1", {"a": 7}), ("r2", 0x1234), ("r3", None), ("nope", None), ("r1", {}), 5) if "ts" in names else ("absent",))):
+                    v = {"y": 1} if "y" in names else {}
+                    if not (isinstance(kv, str) and kv == "absent"):
+                        v["tk"] = kv
+                    if tsv != "absent":
+                        v["ts"] = tsv
+                    vs.append(v)
+            try:
+                comp, vs = wrap(cont, ps, vs)
+            except Exception:  # noqa
+                continue
+            head = [0x22] if cont != "structure" else []
+            pdus = [bytes(head) + bytes(b) for n in range(4 if big else 3) for b in itertools.product((0x00, 0x01, 0x02, 0x03, 0xFF), repeat=n)]
+            yield f"{ttag}/{cont}", comp, vs, pdus
+
+
 def gen_cases(ctx, big):
     """the operations of C01/C04/C05 (+ corpus, scenarios, somersault, atomic) as JSON cases"""
     import atomic_lib as A
@@ -805,6 +1009,33 @@ def gen_cases(ctx, big):
                     dec(c2, bytes([0x22, x, 1]), "ambiguous-table")
         except Exception:  # noqa
             ctx.count("case_generation_skipped")
+    # round 6: the key protocol (LENGTH-KEY / TABLE-KEY: placeholder, definition by an explicit value or by the user, value written at the end of
+    # the composite) with every problem it can report -- each value encoded, the PDUs of both modes and all short byte strings decoded
+    keep_flag = get_flag()
+    try:
+        for tag, comp, vs, pdus in enum_key_protocol(big):
+            try:
+                set_flag(True)
+                L, err = O.safe_load(comp)
+                if L is None:
+                    ctx.count("key_protocol_not_loadable")
+                    continue
+                fam = "key-protocol-table" if tag.startswith("tk-") else "key-protocol"
+                ctx.histo("key_protocol_layout", tag.split("/")[0])
+                own = []
+                for v in vs:
+                    enc(comp, v, None, fam)
+                    for flag in (True, False):
+                        set_flag(flag)
+                        r = O.impl_encode(L[comp.name], v, None)
+                        if r.ok and r.pdu not in own:
+                            own.append(r.pdu)
+                for b in dict.fromkeys(own + list(pdus)):
+                    dec(comp, b, fam)
+            except Exception:  # noqa
+                ctx.count("case_generation_skipped")
+    finally:
+        set_flag(keep_flag)
     # generated descriptions: C01 valid values, C04 mutants, C05 byte strings
     n_docs = 1500 if big else 420
     arng2 = ctx.sub_rng("ambiguity")
